@@ -1,7 +1,7 @@
 (* Extraction entry point for C14 (trust-schema validator): model AND specification.
    Worlds, schemas and histories arrive as finite tables; a lookup that misses a table answers
    Err (EOther 97) (code 197) so that a harness gap is visible instead of silently "false". *)
-From NDN Require Import Base.Prelude Base.Sexp Model.Validator Model.ValidatorConc Spec.ChainSpec.
+From NDN Require Import Base.Prelude Base.Sexp Model.Validator Model.ValidatorConc Model.ValidatorMem Spec.ChainSpec.
 From Coq Require Extraction ExtrOcamlBasic.
 Local Open Scope N_scope.
 
@@ -134,6 +134,21 @@ Definition s_obs (b : obs) : sexp :=
   | BBad => SList [SNum 9]
   end.
 
+(* ---- the caller's memory (Model/ValidatorMem.v): (10 buffer ANCHOR) load | (11 buffer) overwrite | (0) storage |
+   (1 schema buffer sarg) lvs_validator from the buffer | (2 buffer sarg) CascadeChecker | (3 instance buffer) ---- *)
+Definition as_mop (ps : list pkt) (scs : list schema) (s : sexp) : option mop :=
+  match s with
+  | SList [SNum 10; b; a] => odo b' <- as_nat b ;; odo a' <- as_anchor ps a ;; Some (MLoad b' a')
+  | SList [SNum 11; b] => option_map MScribble (as_nat b)
+  | SList [SNum 0] => Some MNewStorage
+  | SList [SNum 1; si; b; sa] =>
+      odo si' <- as_nat si ;; odo sc <- nth_error scs si' ;; odo b' <- as_nat b ;; odo sa' <- as_sarg sa ;;
+      Some (MNewLvs sc b' sa')
+  | SList [SNum 2; b; sa] => odo b' <- as_nat b ;; odo sa' <- as_sarg sa ;; Some (MNewCascade b' sa')
+  | SList [SNum 3; i; b] => odo i' <- as_nat i ;; odo b' <- as_nat b ;; Some (MValidate i' b')
+  | _ => None
+  end.
+
 Definition as_trust (s : sexp) : option trust :=
   match s with
   | SList [n; SBytes k; cs] =>
@@ -216,6 +231,13 @@ Definition run (req : sexp) : sexp :=
                     | Ok c => SList [SNum 1; s_list s_queue (crun (snd pw) c (cinit []) evs');
                                      s_cstate (cfinal (snd pw) c (cinit []) evs')]
                     end))
+  (* model: a history with the caller's memory.  (5 legacy fuel WORLD SCHEMAS MOPS) -> per operation () | (observation) *)
+  | SList [SNum 5; lg; fu; wd; scs; ops] =>
+      or_bad (odo lg' <- as_bool lg ;; odo fu' <- as_nat fu ;;
+              odo pw <- as_world wd ;; odo scs' <- as_list_of as_schema scs ;;
+              odo ops' <- as_list_of (as_mop (fst pw) scs') ops ;;
+              Some (s_list (s_opt s_obs)
+                           (snd (mrun lg' (snd pw) fu' {| m_mem := []; m_st := init_state |} ops'))))
   | _ => s_bad_request
   end.
 
